@@ -39,16 +39,61 @@ CLAIMED = {
         "technique": "Coq proof (case analysis over typed-value kinds; loop lemmas) + exhaustive-grid differential correspondence",
     },
     "C13": {
-        "text": ("14 theorems (Coq, no axioms): max/min (plain and inverted) over lists of same-kind numbers and over "
-                 "any Array-of-Hashes by attribute (present, absent, repeated, null) select exactly the extremal "
-                 "members / exactly the others, by a loop invariant over the scanned prefix; has_child selects "
-                 "exactly the hashes having / lacking the key; parent(n) is the n-th ancestor and refuses to climb "
-                 "above the root; name() is the parent reference.  unique / distinct / hash-of-hashes max-min / text "
-                 "collections are covered by the model, the correspondence run and the judge but have no theorem "
-                 "yet (stated in docs/C13.md).  Tie: every keyword x inversion x parameter form through "
-                 "KeywordSearches.search_matches and end to end through Processor.get_nodes."),
+        "text": ("35 theorems (Coq, no axioms) over a model of all of keywordsearches.py: max/min (plain and inverted) "
+                 "select exactly the extremal members / exactly the others for lists of ints, of same-kind numbers and "
+                 "of text (lexicographic), for any Array-of-Hashes and any hash-of-hashes by attribute (present, "
+                 "absent, repeated, null), by a loop invariant generic in the order; unique = the members whose "
+                 "value occurs once (inverted: more than once), distinct = the first member of each group in order "
+                 "of first occurrence, by a grouping invariant under Python equality; has_child, parent(n) incl. "
+                 "refusal above the root, name(), and the refusal branches.  Mixed int/float/numeric-text "
+                 "collections are outside the theorems (tied only).  Tie: every keyword x inversion x parameter "
+                 "form through KeywordSearches.search_matches and end to end through Processor.get_nodes."),
         "design_ref": "DESIGN.md section 4 (C13), docs/C13.md",
         "note": NOTE_COMMON,
         "technique": "Coq proof (loop invariants over a model of keywordsearches.py) + differential correspondence",
+    },
+    "C04": {
+        "text": ("Theorems (Coq, no axioms) over a model of Processor._delete_nodes acting on the coordinates the read "
+                 "side gathered (parents addressed by object identity, reversed processing, dict / list / set "
+                 "branches): C04_delete_exact_partial - when the gathered coordinates are distinct and in document "
+                 "order within each parent (true of every collector-free path) the result is the document with "
+                 "exactly those locations removed, every other node, value and relative order kept; "
+                 "C04_root_refused / C04_root_never_deleted; _refuted witnesses for the two listed findings "
+                 "(duplicate / disordered collector results F15, root among other matches F15b).  Tie: the real "
+                 "delete_nodes with the coordinates captured at the entry of _delete_nodes, model vs implementation "
+                 "vs an independent judge over a shadow copy."),
+        "design_ref": "DESIGN.md section 4 (C04), docs/C04.md",
+        "note": NOTE_COMMON + "  The matched coordinates are an input of this model (obtained from the real Processor); the read side is C01/C02.",
+        "technique": "Coq proof (reverse-order index lemmas over an identity-addressed document model) + differential correspondence",
+    },
+    "C17": {
+        "text": ("12 theorems (Coq, no axioms) over a model of the save sequences of yaml-set, yaml-merge and "
+                 "eyaml-rotate-keys as call lists on an abstract file system (Target/Bak/Output/Tmp x "
+                 "Orig/Stale/New/Partial) and of every exit of main() before the single write: a run that ends "
+                 "before the write performs no call (file system identical, no .bak, no output); an existing "
+                 "--output is never replaced; with --backup the .bak is the pre-image; for every tool, start "
+                 "state and ANY single fault (every position, before/mid effect, OSError/AssertionError) target or "
+                 ".bak still holds the original - also as a general lemma over arbitrary call lists of the shape "
+                 "pre ++ Copy2 Target Bak :: post.  Tie: fault enumeration on the real main() functions "
+                 "in-process with the I/O calls wrapped in the command modules' namespaces: traces and surviving "
+                 "bytes compared with the model for every fault position.  OS/disk-level atomicity cannot be "
+                 "exhibited (Partial is the pessimistic stand-in)."),
+        "design_ref": "DESIGN.md section 4 (C17), docs/C17.md",
+        "note": NOTE_COMMON,
+        "technique": "Coq proof (fault-indexed run of a call-list model) + fault-injection correspondence on the real tools",
+    },
+    "C19": {
+        "text": ("8 theorems (Coq, no axioms) over a model of EYAMLProcessor.is_eyaml_value / find_eyaml_paths and the "
+                 "rotation loop of eyaml_rotate_keys.py, the cipher being Section variables with the three cipher "
+                 "laws as hypotheses: the ENC[ marker rule; a file without secrets is neither rewritten nor backed "
+                 "up; an anchored secret is rotated once (seen_anchors never repeats a name, for any run); per "
+                 "value, the new ciphertext decrypts under the new key to the old plaintext and the old key is "
+                 "dead (guard plain_ok = listed finding F19a, with _refuted witnesses).  Document-level "
+                 "re-keying / frame statements are NOT proved yet (judged on the real code only; docs/C19.md).  "
+                 "Tie: the real eyaml-rotate-keys main() in-process against a keyed reversible stand-in eyaml "
+                 "executable (the hiera-eyaml gem is absent)."),
+        "design_ref": "DESIGN.md section 4 (C19), docs/C19.md",
+        "note": NOTE_COMMON + "  The real hiera-eyaml/PKCS7 is replaced by harness/eyaml_standin.py.",
+        "technique": "Coq proof (loop invariant over the rotation model, cipher laws as hypotheses) + differential correspondence with a stand-in eyaml",
     },
 }
